@@ -1,5 +1,1022 @@
 import Vgi.Model.Creds
+/-!
+# C24 — Credential extractors accept exactly what they are configured to accept
+
+Theorems about `Vgi.Creds` (model of `BearerAuthenticateStatic`, `ParseXfcc`,
+`splitRespectingQuotes`, `unescapeQuoted`, `extractCN`, default identity of
+`MtlsAuthenticateXfcc`). All statements are for all byte strings / all lists.
+-/
 namespace Vgi.Props.C24
 open Vgi Vgi.Creds
+
+/-! ## Static bearer -/
+
+theorem stripPrefix_iff : ∀ (p s t : Bytes), stripPrefix p s = some t ↔ s = p ++ t
+  | [], s, t => by simp [stripPrefix, eq_comm]
+  | _ :: _, [], t => by simp [stripPrefix]
+  | a :: p, c :: s, t => by
+    simp only [stripPrefix, List.cons_append, List.cons.injEq]
+    by_cases h : a = c
+    · simp only [h, if_true, true_and]; exact stripPrefix_iff p s t
+    · simp only [h, if_false, reduceCtorEq, false_iff, not_and]
+      intro hc; exact absurd hc.symm h
+
+theorem lookupToken_iff (tok : Bytes) (i : Nat) : ∀ (tokens : List (Bytes × Nat)),
+    (tokens.map Prod.fst).Nodup → (lookupToken tok tokens = some i ↔ (tok, i) ∈ tokens)
+  | [], _ => by simp [lookupToken]
+  | e :: r, hnd => by
+    simp only [List.map_cons, List.nodup_cons] at hnd
+    simp only [lookupToken, List.mem_cons]
+    by_cases h : tok = e.1
+    · simp only [h, if_true, Option.some.injEq]
+      constructor
+      · intro hi; left; rw [← hi]
+      · rintro (he | hm)
+        · rw [← he]
+        · exact absurd (List.mem_map.mpr ⟨(e.1, i), hm, rfl⟩) hnd.1
+    · simp only [h, if_false]
+      rw [lookupToken_iff tok i r hnd.2]
+      constructor
+      · intro hm; right; exact hm
+      · rintro (he | hm)
+        · exact absurd (by rw [← he]) h
+        · exact hm
+
+/-- **bearer_iff** — the static bearer authenticator accepts a request, with identity `i`, if and
+only if the FIRST Authorization value is exactly `"Bearer "` followed byte-for-byte by a
+configured token whose identity is `i` (token keys distinct, as in a Go map). -/
+theorem bearer_iff (tokens : List (Bytes × Nat)) (hnd : (tokens.map Prod.fst).Nodup)
+    (hdrs : List Bytes) (i : Nat) :
+    authStatic tokens hdrs = .ok i ↔
+      ∃ t, hdrs.head? = some (bearerPrefix ++ t) ∧ (t, i) ∈ tokens := by
+  unfold authStatic
+  cases hdrs with
+  | nil => simp
+  | cons h rest =>
+    simp only [List.headD_cons, List.head?_cons, Option.some.injEq]
+    by_cases he : h.isEmpty
+    · have : h = [] := List.isEmpty_iff.mp he
+      subst this
+      simp [bearerPrefix]
+    · simp only [he, Bool.false_eq_true, if_false]
+      cases hs : stripPrefix bearerPrefix h with
+      | none =>
+        simp only [reduceCtorEq, false_iff, not_exists, not_and]
+        intro t ht
+        rw [(stripPrefix_iff _ _ t).mpr ht] at hs
+        cases hs
+      | some t =>
+        have ht := (stripPrefix_iff _ _ _).mp hs
+        simp only
+        cases hl : lookupToken t tokens with
+        | none =>
+          simp only [reduceCtorEq, false_iff, not_exists, not_and]
+          intro t' ht' hm
+          have : t' = t := List.append_cancel_left (ht'.symm.trans ht)
+          subst this
+          rw [(lookupToken_iff t' i tokens hnd).mpr hm] at hl
+          cases hl
+        | some j =>
+          simp only [BearerResult.ok.injEq]
+          constructor
+          · intro hj
+            subst hj
+            exact ⟨t, ht, (lookupToken_iff t j tokens hnd).mp hl⟩
+          · rintro ⟨t', ht', hm⟩
+            have : t' = t := List.append_cancel_left (ht'.symm.trans ht)
+            subst this
+            have := (lookupToken_iff t' i tokens hnd).mpr hm
+            rw [hl] at this
+            exact Option.some.inj this
+
+/-- A rejected request never yields an identity: every non-`ok` outcome is one of the three
+refusals, so acceptance is exactly characterised by `bearer_iff`. -/
+theorem bearer_reject_cases (tokens : List (Bytes × Nat)) (hdrs : List Bytes) :
+    (∃ i, authStatic tokens hdrs = .ok i) ∨ authStatic tokens hdrs = .missing ∨
+      authStatic tokens hdrs = .notBearer ∨ authStatic tokens hdrs = .unknown := by
+  unfold authStatic
+  simp only
+  split
+  · simp
+  · split
+    · simp
+    · split <;> simp
+
+/-! ## XFCC: splitting respects quotes -/
+
+/-- Quote state after reading `t` from state `q`; `none` if `t` holds a delimiter outside quotes
+or ends right after a backslash inside quotes. -/
+def scanQ (d : UInt8) : Bool → Bytes → Option Bool
+  | q, [] => some q
+  | q, c :: r =>
+    if c = dq then scanQ d (!q) r
+    else if c = bs ∧ q = true then
+      match r with
+      | [] => none
+      | _ :: r' => scanQ d q r'
+    else if c = d ∧ q = false then none
+    else scanQ d q r
+
+theorem scanQ_cons (d : UInt8) (q : Bool) (c : UInt8) (r : Bytes) : scanQ d q (c :: r) =
+    if c = dq then scanQ d (!q) r
+    else if c = bs ∧ q = true then
+      match r with
+      | [] => none
+      | _ :: r' => scanQ d q r'
+    else if c = d ∧ q = false then none
+    else scanQ d q r := by
+  rw [scanQ.eq_def]; rfl
+
+theorem splitQ_cons (d : UInt8) (q : Bool) (cur : Bytes) (c : UInt8) (r : Bytes) :
+    splitQ d q cur (c :: r) =
+    if c = dq then splitQ d (!q) (cur ++ [c]) r
+    else if c = bs ∧ q = true then
+      match r with
+      | [] => [cur ++ [c]]
+      | e :: r' => splitQ d q (cur ++ [c, e]) r'
+    else if c = d ∧ q = false then cur :: splitQ d false [] r
+    else splitQ d q (cur ++ [c]) r := by
+  rw [splitQ.eq_def]; rfl
+
+/-- Reading a self-contained piece `t` only accumulates it. -/
+theorem splitQ_append (d : UInt8) : ∀ (n : Nat) (t : Bytes), t.length ≤ n → ∀ (q : Bool)
+    (cur rest : Bytes) (q' : Bool), scanQ d q t = some q' →
+    splitQ d q cur (t ++ rest) = splitQ d q' (cur ++ t) rest
+  | _, [], _, q, cur, rest, q', h => by
+    simp only [scanQ, Option.some.injEq] at h
+    subst h; simp
+  | 0, _ :: _, hl, _, _, _, _, _ => by simp at hl
+  | n + 1, c :: r, hl, q, cur, rest, q', h => by
+    have hl : r.length ≤ n := Nat.le_of_succ_le_succ hl
+    rw [scanQ_cons] at h
+    simp only [List.cons_append]
+    rw [splitQ_cons]
+    by_cases h1 : c = dq
+    · simp only [h1, if_true] at h ⊢
+      rw [splitQ_append d n r hl (!q) (cur ++ [dq]) rest q' h]
+      simp
+    · simp only [h1, if_false] at h ⊢
+      by_cases h2 : c = bs ∧ q = true
+      · simp only [h2, and_self, if_true] at h ⊢
+        cases r with
+        | nil => simp at h
+        | cons e r' =>
+          simp only [List.length_cons] at hl
+          simp only [List.cons_append]
+          rw [splitQ_append d n r' (by omega) true (cur ++ [bs, e]) rest q' (by simpa [h2.2] using h)]
+          simp [h2.1]
+      · simp only [h2, if_false] at h ⊢
+        by_cases h3 : c = d ∧ q = false
+        · simp [h3] at h
+        · simp only [h3, if_false] at h ⊢
+          rw [splitQ_append d n r hl q (cur ++ [c]) rest q' h]
+          simp
+
+theorem scanQ_append (d : UInt8) : ∀ (n : Nat) (t : Bytes), t.length ≤ n → ∀ (q : Bool)
+    (rest : Bytes) (q' : Bool), scanQ d q t = some q' → scanQ d q (t ++ rest) = scanQ d q' rest
+  | _, [], _, q, rest, q', h => by
+    simp only [scanQ, Option.some.injEq] at h
+    subst h; simp
+  | 0, _ :: _, hl, _, _, _, _ => by simp at hl
+  | n + 1, c :: r, hl, q, rest, q', h => by
+    have hl : r.length ≤ n := Nat.le_of_succ_le_succ hl
+    rw [scanQ_cons] at h
+    simp only [List.cons_append]
+    rw [scanQ_cons]
+    by_cases h1 : c = dq
+    · simp only [h1, if_true] at h ⊢
+      exact scanQ_append d n r hl (!q) rest q' h
+    · simp only [h1, if_false] at h ⊢
+      by_cases h2 : c = bs ∧ q = true
+      · simp only [h2, and_self, if_true] at h ⊢
+        cases r with
+        | nil => simp at h
+        | cons e r' =>
+          simp only [List.length_cons] at hl
+          simp only [List.cons_append]
+          exact scanQ_append d n r' (by omega) true rest q' (by simpa [h2.2] using h)
+      · simp only [h2, if_false] at h ⊢
+        by_cases h3 : c = d ∧ q = false
+        · simp [h3] at h
+        · simp only [h3, if_false] at h ⊢
+          exact scanQ_append d n r hl q rest q' h
+
+/-- Pieces joined by a delimiter. -/
+def joinWith (d : UInt8) : List Bytes → Bytes
+  | [] => []
+  | [a] => a
+  | a :: b :: r => a ++ d :: joinWith d (b :: r)
+
+/-- **split_join** — splitting a delimiter-joined list of self-contained pieces (each leaves the
+quote state closed and has no delimiter outside quotes) returns exactly the pieces: delimiters
+inside quoted values never split. -/
+theorem split_join (d : UInt8) (hd : d ≠ dq) : ∀ (a : Bytes) (r : List Bytes) (cur : Bytes),
+    (∀ t ∈ a :: r, scanQ d false t = some false) →
+    splitQ d false cur (joinWith d (a :: r)) = (cur ++ a) :: r
+  | a, [], cur, h => by
+    have := splitQ_append d a.length a (Nat.le_refl _) false cur [] false (h a (by simp))
+    simp only [List.append_nil] at this
+    simp [joinWith, this, splitQ]
+  | a, b :: r, cur, h => by
+    have ha := splitQ_append d a.length a (Nat.le_refl _) false cur (d :: joinWith d (b :: r)) false
+      (h a (by simp))
+    simp only [joinWith]
+    rw [ha]
+    have hdb : ¬ (d = bs ∧ false = true) := by simp
+    rw [splitQ_cons]
+    simp only [hd, if_false, hdb, and_self, if_true]
+    rw [split_join d hd b r [] (fun t ht => h t (by simp [ht]))]
+    simp
+
+/-! ## XFCC: the grammar side -/
+
+/-- Bytes that may appear in an unquoted value: printable ASCII except `"` `,` `;` `\`. -/
+def plainByte (c : UInt8) : Bool :=
+  0x21 ≤ c && c ≤ 0x7E && c != dq && c != comma && c != semi && c != bs
+
+def Plain (v : Bytes) : Prop := ∀ c ∈ v, plainByte c = true
+
+/-- Quoted-string escaping: `"` and `\` get a backslash. -/
+def escape : Bytes → Bytes
+  | [] => []
+  | c :: r => if c = dq ∨ c = bs then bs :: c :: escape r else c :: escape r
+
+def quote (w : Bytes) : Bytes := dq :: (escape w ++ [dq])
+
+theorem plainByte_facts {c : UInt8} (h : plainByte c = true) :
+    c ≠ dq ∧ c ≠ bs ∧ c ≠ comma ∧ c ≠ semi ∧ c.toNat < 128 ∧ asciiSpace c = false := by
+  simp only [plainByte, Bool.and_eq_true, decide_eq_true_eq, bne_iff_ne, ne_eq,
+    UInt8.le_iff_toNat_le] at h
+  obtain ⟨⟨⟨⟨⟨h1, h2⟩, h3⟩, h4⟩, h5⟩, h6⟩ := h
+  have h1' : 33 ≤ c.toNat := h1
+  have h2' : c.toNat ≤ 126 := h2
+  refine ⟨h3, h6, h4, h5, by omega, ?_⟩
+  have e32 : (c == 32) = false := by
+    rw [beq_eq_false_iff_ne]; intro hc; subst hc; simp at h1'
+  have e9 : decide (c ≤ 13) = false := by
+    rw [decide_eq_false_iff_not, UInt8.le_iff_toNat_le]
+    have : (13 : UInt8).toNat = 13 := rfl
+    omega
+  simp [asciiSpace, e32, e9]
+
+theorem scanQ_inert (d : UInt8) : ∀ (t : Bytes) (q : Bool),
+    (∀ c ∈ t, c ≠ dq ∧ c ≠ bs ∧ c ≠ d) → scanQ d q t = some q
+  | [], q, _ => rfl
+  | c :: r, q, h => by
+    have hc := h c (by simp)
+    rw [scanQ_cons]
+    simp only [hc.1, hc.2.1, hc.2.2, false_and, if_false]
+    exact scanQ_inert d r q (fun x hx => h x (by simp [hx]))
+
+theorem scanQ_escape (d : UInt8) : ∀ (w rest : Bytes),
+    scanQ d true (escape w ++ rest) = scanQ d true rest
+  | [], rest => by simp [escape]
+  | c :: r, rest => by
+    simp only [escape]
+    by_cases h : c = dq ∨ c = bs
+    · simp only [h, if_true, List.cons_append]
+      rw [scanQ_cons]
+      have h1 : bs ≠ dq := by decide
+      simp only [h1, if_false, and_self, if_true]
+      exact scanQ_escape d r rest
+    · simp only [h, if_false, List.cons_append]
+      simp only [not_or] at h
+      rw [scanQ_cons]
+      have h3 : ¬ (c = d ∧ true = false) := by simp
+      simp only [h.1, h.2, if_false, false_and, h3]
+      exact scanQ_escape d r rest
+
+theorem scanQ_quote (d : UInt8) (w : Bytes) : scanQ d false (quote w) = some false := by
+  unfold quote
+  rw [scanQ_cons]
+  simp only [if_true, Bool.not_false]
+  rw [scanQ_escape, scanQ_cons]
+  simp [scanQ]
+
+theorem unescape_cons (c : UInt8) (r : Bytes) : unescapeQuoted (c :: r) =
+    if c = bs then
+      match r with
+      | [] => [c]
+      | e :: r' => if e = nl then c :: unescapeQuoted (e :: r') else e :: unescapeQuoted r'
+    else c :: unescapeQuoted r := by
+  rw [unescapeQuoted.eq_def]; rfl
+
+/-- Unescaping undoes escaping. -/
+theorem unescape_escape : ∀ w : Bytes, unescapeQuoted (escape w) = w
+  | [] => by simp [escape, unescapeQuoted]
+  | c :: r => by
+    simp only [escape]
+    by_cases h : c = dq ∨ c = bs
+    · simp only [h, if_true]
+      rw [unescape_cons]
+      have hn : c ≠ nl := by rcases h with h | h <;> (subst h; decide)
+      simp only [if_true, hn, if_false, unescape_escape r]
+    · simp only [h, if_false]
+      simp only [not_or] at h
+      rw [unescape_cons]
+      simp only [h.2, if_false, unescape_escape r]
+
+/-! ## Trimming leaves text with solid ends alone -/
+
+/-- An ASCII byte that is not white space: trimming never removes it, from either side. -/
+def Solid (c : UInt8) : Prop := c.toNat < 128 ∧ asciiSpace c = false
+
+theorem solid_ne {c : UInt8} (h : Solid c) (x : UInt8) (hx : 128 ≤ x.toNat) : c ≠ x := by
+  intro e; subst e; exact absurd h.1 (by omega)
+
+theorem trimLeft_solid {c : UInt8} (h : Solid c) (r : Bytes) : trimLeft (c :: r) = c :: r := by
+  have n1 := solid_ne h 0xC2 (by decide)
+  have n2 := solid_ne h 0xE1 (by decide)
+  have n3 := solid_ne h 0xE2 (by decide)
+  have n4 := solid_ne h 0xE3 (by decide)
+  cases r with
+  | nil => simp [trimLeft, h.2]
+  | cons b r =>
+    cases r with
+    | nil => simp [trimLeft, h.2, n1]
+    | cons c2 r => simp [trimLeft, h.2, n1, n2, n3, n4]
+
+theorem trimLeftRev_solid {c : UInt8} (h : Solid c) (r : Bytes) :
+    trimLeftRev (c :: r) = c :: r := by
+  have m1 := solid_ne h 0x85 (by decide)
+  have m2 := solid_ne h 0xA0 (by decide)
+  have m3 := solid_ne h 0x80 (by decide)
+  have m4 := solid_ne h 0x9F (by decide)
+  have m5 : e280Space c = false := by
+    have hc := h.1
+    simp only [e280Space, Bool.or_eq_false_iff, Bool.and_eq_false_iff, beq_eq_false_iff_ne,
+      decide_eq_false_iff_not, UInt8.le_iff_toNat_le]
+    refine ⟨⟨⟨?_, ?_⟩, ?_⟩, ?_⟩
+    · left; have : (0x80 : UInt8).toNat = 128 := rfl; omega
+    · exact solid_ne h 0xA8 (by decide)
+    · exact solid_ne h 0xA9 (by decide)
+    · exact solid_ne h 0xAF (by decide)
+  cases r with
+  | nil => simp [trimLeftRev, h.2]
+  | cons b r =>
+    cases r with
+    | nil => simp [trimLeftRev, h.2, m1, m2]
+    | cons c2 r => simp [trimLeftRev, h.2, m1, m2, m3, m4, m5]
+
+/-- Text that starts and ends with a solid byte is a fixed point of `strings.TrimSpace`. -/
+theorem trimSpace_solid (t : Bytes) (c l : UInt8) (r i : Bytes) (ht : t = c :: r)
+    (hl : t = i ++ [l]) (hc : Solid c) (hs : Solid l) : trimSpace t = t := by
+  unfold trimSpace
+  rw [ht, trimLeft_solid hc, ← ht, hl]
+  simp only [List.reverse_append, List.reverse_cons, List.reverse_nil, List.nil_append,
+    List.singleton_append]
+  rw [trimLeftRev_solid hs]
+  simp
+
+theorem trimSpace_nil : trimSpace [] = [] := by decide
+
+/-- First / last byte bookkeeping. -/
+def FirstSolid (t : Bytes) : Prop := ∃ c r, t = c :: r ∧ Solid c
+def LastSolid (t : Bytes) : Prop := ∃ i l, t = i ++ [l] ∧ Solid l
+
+theorem trimSpace_ends {t : Bytes} (h1 : FirstSolid t) (h2 : LastSolid t) : trimSpace t = t := by
+  obtain ⟨c, r, ht, hc⟩ := h1
+  obtain ⟨i, l, hl, hs⟩ := h2
+  exact trimSpace_solid t c l r i ht hl hc hs
+
+theorem FirstSolid.append {a : Bytes} (h : FirstSolid a) (b : Bytes) : FirstSolid (a ++ b) := by
+  obtain ⟨c, r, ht, hc⟩ := h
+  exact ⟨c, r ++ b, by simp [ht], hc⟩
+
+theorem LastSolid.prepend {b : Bytes} (h : LastSolid b) (a : Bytes) : LastSolid (a ++ b) := by
+  obtain ⟨i, l, hl, hs⟩ := h
+  exact ⟨a ++ i, l, by simp [hl], hs⟩
+
+theorem solid_of_plain {c : UInt8} (h : plainByte c = true) : Solid c :=
+  let f := plainByte_facts h
+  ⟨f.2.2.2.2.1, f.2.2.2.2.2⟩
+
+theorem plain_ends {v : Bytes} (hv : Plain v) (hne : v ≠ []) : FirstSolid v ∧ LastSolid v := by
+  constructor
+  · cases v with
+    | nil => exact absurd rfl hne
+    | cons c r => exact ⟨c, r, rfl, solid_of_plain (hv c (by simp))⟩
+  · have := List.dropLast_concat_getLast hne
+    exact ⟨v.dropLast, v.getLast hne, this.symm, solid_of_plain (hv _ (List.getLast_mem hne))⟩
+
+theorem trimSpace_plain {v : Bytes} (hv : Plain v) : trimSpace v = v := by
+  by_cases hne : v = []
+  · subst hne; exact trimSpace_nil
+  · exact trimSpace_ends (plain_ends hv hne).1 (plain_ends hv hne).2
+
+/-! ## Rendering an XFCC header (Envoy's grammar) -/
+
+/-- One `Key=Value` pair on the grammar side: `text` is the value as it stands between the quotes
+(before escaping) or bare; for Cert/URI/By it is the URL-encoded form. -/
+structure RPair where
+  key : Key
+  text : Bytes
+  quoted : Bool
+
+def keyName : Key → Bytes
+  | .hash => [72, 97, 115, 104]                       -- "Hash"
+  | .cert => [67, 101, 114, 116]                      -- "Cert"
+  | .subject => [83, 117, 98, 106, 101, 99, 116]      -- "Subject"
+  | .uri => [85, 82, 73]                              -- "URI"
+  | .dns => [68, 78, 83]                              -- "DNS"
+  | .by_ => [66, 121]                                 -- "By"
+
+def renderValue (p : RPair) : Bytes := if p.quoted then quote p.text else p.text
+def renderPair (p : RPair) : Bytes := keyName p.key ++ eqc :: renderValue p
+def renderElem (ps : List RPair) : Bytes := joinWith semi (ps.map renderPair)
+def renderHeader (es : List (List RPair)) : Bytes := joinWith comma (es.map renderElem)
+
+/-- A bare value must consist of plain bytes; a quoted value may hold ANY bytes. -/
+def WFPair (p : RPair) : Prop := p.quoted = true ∨ Plain p.text
+
+/-- What the pair means: the value, URL-decoded for Cert/URI/By. -/
+def pairValue (p : RPair) : Bytes := decodeFor p.key p.text
+
+def assemble (ps : List RPair) : Elem := ps.foldl (fun e p => assign e p.key (pairValue p)) {}
+
+theorem keyName_facts (k : Key) :
+    (∀ c ∈ keyName k, c ≠ dq ∧ c ≠ bs ∧ c ≠ comma ∧ c ≠ semi ∧ c ≠ eqc) ∧
+    FirstSolid (keyName k) ∧ LastSolid (keyName k) ∧ trimSpace (keyName k) = keyName k ∧
+    keyOf (lowerKey (keyName k)) = some k := by
+  have hs : ∀ c : UInt8, c.toNat < 128 → asciiSpace c = false → Solid c := fun _ a b => ⟨a, b⟩
+  cases k
+  all_goals
+    refine ⟨by decide, ?_, ?_, by decide, by decide⟩
+  · exact ⟨72, [97, 115, 104], rfl, hs _ (by decide) (by decide)⟩
+  · exact ⟨[72, 97, 115], 104, rfl, hs _ (by decide) (by decide)⟩
+  · exact ⟨67, [101, 114, 116], rfl, hs _ (by decide) (by decide)⟩
+  · exact ⟨[67, 101, 114], 116, rfl, hs _ (by decide) (by decide)⟩
+  · exact ⟨83, [117, 98, 106, 101, 99, 116], rfl, hs _ (by decide) (by decide)⟩
+  · exact ⟨[83, 117, 98, 106, 101, 99], 116, rfl, hs _ (by decide) (by decide)⟩
+  · exact ⟨85, [82, 73], rfl, hs _ (by decide) (by decide)⟩
+  · exact ⟨[85, 82], 73, rfl, hs _ (by decide) (by decide)⟩
+  · exact ⟨68, [78, 83], rfl, hs _ (by decide) (by decide)⟩
+  · exact ⟨[68, 78], 83, rfl, hs _ (by decide) (by decide)⟩
+  · exact ⟨66, [121], rfl, hs _ (by decide) (by decide)⟩
+  · exact ⟨[66], 121, rfl, hs _ (by decide) (by decide)⟩
+
+theorem splitAtEq_append : ∀ (k v : Bytes), eqc ∉ k → splitAtEq (k ++ eqc :: v) = some (k, v)
+  | [], v, _ => by simp [splitAtEq]
+  | c :: k, v, h => by
+    simp only [List.mem_cons, not_or] at h
+    have hc : c ≠ eqc := fun e => h.1 e.symm
+    simp [splitAtEq, hc, splitAtEq_append k v h.2]
+
+theorem solid_dq : Solid dq := ⟨by decide, by decide⟩
+theorem solid_eqc : Solid eqc := ⟨by decide, by decide⟩
+
+theorem quote_ends (w : Bytes) : FirstSolid (quote w) ∧ LastSolid (quote w) :=
+  ⟨⟨dq, escape w ++ [dq], rfl, solid_dq⟩, ⟨dq :: escape w, dq, by simp [quote], solid_dq⟩⟩
+
+theorem stripQuotes_quote (w : Bytes) : stripQuotes (quote w) = w := by
+  unfold stripQuotes quote
+  have h1 : (dq :: (escape w ++ [dq])).length ≥ 2 := by simp
+  have h2 : (dq :: (escape w ++ [dq])).head? = some dq := rfl
+  have h3 : (dq :: (escape w ++ [dq])).getLast? = some dq := by
+    have e : dq :: (escape w ++ [dq]) = (dq :: escape w) ++ [dq] := by simp
+    rw [e, List.getLast?_append]; simp
+  have h4 : ((dq :: (escape w ++ [dq])).drop 1).dropLast = escape w := by simp
+  simp only [h1, h2, h3, and_self, if_true, h4, unescape_escape]
+
+theorem stripQuotes_plain {v : Bytes} (hv : Plain v) : stripQuotes v = v := by
+  unfold stripQuotes
+  have : ¬ (v.length ≥ 2 ∧ v.head? = some dq ∧ v.getLast? = some dq) := by
+    rintro ⟨_, hh, _⟩
+    cases v with
+    | nil => simp at hh
+    | cons c r =>
+      simp only [List.head?_cons, Option.some.injEq] at hh
+      exact (plainByte_facts (hv c (by simp))).1 hh
+  simp only [this, if_false]
+
+/-- The value text of a well-formed pair survives trimming and quote stripping. -/
+theorem value_roundtrip (p : RPair) (h : WFPair p) :
+    stripQuotes (trimSpace (renderValue p)) = p.text := by
+  unfold renderValue
+  by_cases hq : p.quoted = true
+  · simp only [hq, if_true]
+    rw [trimSpace_ends (quote_ends _).1 (quote_ends _).2, stripQuotes_quote]
+  · have hp : Plain p.text := by
+      rcases h with h | h
+      · exact absurd h hq
+      · exact h
+    simp only [hq, Bool.false_eq_true, if_false]
+    rw [trimSpace_plain hp, stripQuotes_plain hp]
+
+theorem renderValue_last (p : RPair) (h : WFPair p) :
+    LastSolid (eqc :: renderValue p) := by
+  unfold renderValue
+  by_cases hq : p.quoted = true
+  · simp only [hq, if_true]
+    exact (quote_ends _).2.prepend [eqc]
+  · have hp : Plain p.text := by
+      rcases h with h | h
+      · exact absurd h hq
+      · exact h
+    simp only [hq, Bool.false_eq_true, if_false]
+    by_cases hne : p.text = []
+    · rw [hne]; exact ⟨[], eqc, rfl, solid_eqc⟩
+    · exact (plain_ends hp hne).2.prepend [eqc]
+
+theorem renderPair_ends (p : RPair) (h : WFPair p) :
+    FirstSolid (renderPair p) ∧ LastSolid (renderPair p) :=
+  ⟨(keyName_facts p.key).2.1.append _, (renderValue_last p h).prepend _⟩
+
+/-- **parsePair_render** — one rendered pair is read as (key, decoded value). -/
+theorem parsePair_render (e : Elem) (p : RPair) (h : WFPair p) :
+    parsePair e (renderPair p) = assign e p.key (pairValue p) := by
+  have kf := keyName_facts p.key
+  have ends := renderPair_ends p h
+  have hne : (trimSpace (renderPair p)).isEmpty = false := by
+    rw [trimSpace_ends ends.1 ends.2]
+    obtain ⟨c, r, ht, _⟩ := ends.1
+    rw [ht]; rfl
+  have heq : eqc ∉ keyName p.key := fun hm => (kf.1 eqc hm).2.2.2.2 rfl
+  unfold parsePair
+  simp only [hne, Bool.false_eq_true, if_false]
+  rw [trimSpace_ends ends.1 ends.2]
+  unfold renderPair
+  rw [splitAtEq_append _ _ heq]
+  simp only [kf.2.2.2.1, kf.2.2.2.2, value_roundtrip p h]
+  rfl
+
+/-! ## Elements and headers -/
+
+theorem scanQ_renderPair (d : UInt8) (hd : d = comma ∨ d = semi) (p : RPair) (h : WFPair p) :
+    scanQ d false (renderPair p) = some false := by
+  have kf := (keyName_facts p.key).1
+  have hk : ∀ c ∈ keyName p.key, c ≠ dq ∧ c ≠ bs ∧ c ≠ d := by
+    intro c hc
+    have := kf c hc
+    rcases hd with hd | hd <;> subst hd
+    · exact ⟨this.1, this.2.1, this.2.2.1⟩
+    · exact ⟨this.1, this.2.1, this.2.2.2.1⟩
+  unfold renderPair
+  rw [scanQ_append d _ (keyName p.key) (Nat.le_refl _) false _ false (scanQ_inert d _ false hk)]
+  have he : eqc ≠ dq ∧ eqc ≠ bs ∧ eqc ≠ d := by
+    rcases hd with hd | hd <;> subst hd <;> decide
+  rw [scanQ_cons]
+  simp only [he.1, he.2.1, he.2.2, false_and, if_false]
+  unfold renderValue
+  by_cases hq : p.quoted = true
+  · simp only [hq, if_true]; exact scanQ_quote d _
+  · have hp : Plain p.text := by
+      rcases h with h | h
+      · exact absurd h hq
+      · exact h
+    simp only [hq, Bool.false_eq_true, if_false]
+    apply scanQ_inert
+    intro c hc
+    have f := plainByte_facts (hp c hc)
+    rcases hd with hd | hd <;> subst hd
+    · exact ⟨f.1, f.2.1, f.2.2.1⟩
+    · exact ⟨f.1, f.2.1, f.2.2.2.1⟩
+
+theorem foldl_parsePair : ∀ (ps : List RPair) (e : Elem), (∀ p ∈ ps, WFPair p) →
+    (ps.map renderPair).foldl parsePair e = ps.foldl (fun e p => assign e p.key (pairValue p)) e
+  | [], _, _ => rfl
+  | p :: ps, e, h => by
+    simp only [List.map_cons, List.foldl_cons]
+    rw [parsePair_render e p (h p (by simp))]
+    exact foldl_parsePair ps _ (fun q hq => h q (by simp [hq]))
+
+/-- **parseElement_render** — an element's pairs are read back in order; a `;` inside a quoted
+value does not split. -/
+theorem parseElement_render (p : RPair) (ps : List RPair) (h : ∀ q ∈ p :: ps, WFPair q) :
+    parseElement (renderElem (p :: ps)) = assemble (p :: ps) := by
+  unfold parseElement splitRespectingQuotes renderElem
+  have hs : ∀ t ∈ renderPair p :: ps.map renderPair, scanQ semi false t = some false := by
+    intro t ht
+    rw [← List.map_cons] at ht
+    obtain ⟨q, hq, rfl⟩ := List.mem_map.mp ht
+    exact scanQ_renderPair semi (Or.inr rfl) q (h q hq)
+  rw [List.map_cons, split_join semi (by decide) _ _ [] hs]
+  simp only [List.nil_append]
+  rw [← List.map_cons, foldl_parsePair (p :: ps) {} h]
+  rfl
+
+theorem scanQ_renderElem : ∀ (p : RPair) (ps : List RPair), (∀ q ∈ p :: ps, WFPair q) →
+    scanQ comma false (renderElem (p :: ps)) = some false
+  | p, [], h => by
+    simp only [renderElem, List.map_cons, List.map_nil, joinWith]
+    exact scanQ_renderPair comma (Or.inl rfl) p (h p (by simp))
+  | p, p2 :: ps, h => by
+    have ih := scanQ_renderElem p2 ps (fun q hq => h q (by simp [hq]))
+    simp only [renderElem, List.map_cons, joinWith] at ih ⊢
+    rw [scanQ_append comma _ (renderPair p) (Nat.le_refl _) false _ false
+      (scanQ_renderPair comma (Or.inl rfl) p (h p (by simp)))]
+    rw [scanQ_cons]
+    have : semi ≠ dq ∧ semi ≠ bs ∧ semi ≠ comma := by decide
+    simp only [this.1, this.2.1, this.2.2, false_and, if_false]
+    exact ih
+
+theorem renderElem_ends : ∀ (p : RPair) (ps : List RPair), (∀ q ∈ p :: ps, WFPair q) →
+    FirstSolid (renderElem (p :: ps)) ∧ LastSolid (renderElem (p :: ps))
+  | p, [], h => by
+    simp only [renderElem, List.map_cons, List.map_nil, joinWith]
+    exact renderPair_ends p (h p (by simp))
+  | p, p2 :: ps, h => by
+    have ih := renderElem_ends p2 ps (fun q hq => h q (by simp [hq]))
+    simp only [renderElem, List.map_cons, joinWith] at ih ⊢
+    refine ⟨(renderPair_ends p (h p (by simp))).1.append _, ?_⟩
+    have := ih.2.prepend (renderPair p ++ [semi])
+    simpa using this
+
+/-- A well-formed header: every element has at least one pair and every pair is well formed. -/
+def WFHeader (es : List (List RPair)) : Prop := ∀ ps ∈ es, ps ≠ [] ∧ ∀ p ∈ ps, WFPair p
+
+theorem filterMap_elems : ∀ (es : List (List RPair)), WFHeader es →
+    (es.map renderElem).filterMap (fun raw =>
+      let t := trimSpace raw
+      if t.isEmpty then none else some (parseElement t)) = es.map assemble
+  | [], _ => rfl
+  | ps :: es, h => by
+    have hp := h ps (by simp)
+    obtain ⟨p, rest, rfl⟩ : ∃ p rest, ps = p :: rest := by
+      cases ps with
+      | nil => exact absurd rfl hp.1
+      | cons p rest => exact ⟨p, rest, rfl⟩
+    have ends := renderElem_ends p rest hp.2
+    have ht : trimSpace (renderElem (p :: rest)) = renderElem (p :: rest) :=
+      trimSpace_ends ends.1 ends.2
+    have hne : (renderElem (p :: rest)).isEmpty = false := by
+      obtain ⟨c, r, e, _⟩ := ends.1
+      rw [e]; rfl
+    simp only [List.map_cons, List.filterMap_cons, ht, hne, Bool.false_eq_true, if_false,
+      parseElement_render p rest hp.2]
+    rw [filterMap_elems es (fun q hq => h q (by simp [hq]))]
+
+/-- **xfcc_roundtrip** — `ParseXfcc` agrees with the header grammar: for every well-formed list of
+elements (any number of elements, any pairs in any order, values of ANY bytes when quoted — so
+commas, semicolons, quotes and backslashes inside quoted values never split anything — bare values
+of plain bytes), parsing the rendered header returns exactly the elements, with Cert/URI/By
+URL-decoded. -/
+theorem xfcc_roundtrip (es : List (List RPair)) (h : WFHeader es) :
+    parseXfcc (renderHeader es) = es.map assemble := by
+  unfold parseXfcc splitRespectingQuotes renderHeader
+  cases es with
+  | nil => decide
+  | cons ps es =>
+    have hs : ∀ t ∈ renderElem ps :: es.map renderElem, scanQ comma false t = some false := by
+      intro t ht
+      rw [← List.map_cons] at ht
+      obtain ⟨qs, hq, rfl⟩ := List.mem_map.mp ht
+      have hw := h qs hq
+      cases qs with
+      | nil => exact absurd rfl hw.1
+      | cons p rest => exact scanQ_renderElem p rest hw.2
+    rw [List.map_cons, split_join comma (by decide) _ _ [] hs]
+    simp only [List.nil_append]
+    rw [← List.map_cons]
+    exact filterMap_elems (ps :: es) h
+
+/-! ## URL-encoded fields are decoded -/
+
+def hexUp (n : UInt8) : UInt8 := if n < 10 then 48 + n else 55 + n
+
+/-- Percent-encode every byte (`%XX`, upper-case hex). -/
+def pctEncode : Bytes → Bytes
+  | [] => []
+  | c :: r => pct :: hexUp (c / 16) :: hexUp (c % 16) :: pctEncode r
+
+set_option maxRecDepth 20000 in
+theorem hex_roundtrip_nat : ∀ n, n < 256 →
+    isHex (hexUp (UInt8.ofNat n / 16)) = true ∧ isHex (hexUp (UInt8.ofNat n % 16)) = true ∧
+    unhex (hexUp (UInt8.ofNat n / 16)) * 16 + unhex (hexUp (UInt8.ofNat n % 16)) = UInt8.ofNat n ∧
+    plainByte (hexUp (UInt8.ofNat n / 16)) = true ∧ plainByte (hexUp (UInt8.ofNat n % 16)) = true := by
+  decide
+
+theorem hex_roundtrip (c : UInt8) :
+    isHex (hexUp (c / 16)) = true ∧ isHex (hexUp (c % 16)) = true ∧
+    unhex (hexUp (c / 16)) * 16 + unhex (hexUp (c % 16)) = c ∧
+    plainByte (hexUp (c / 16)) = true ∧ plainByte (hexUp (c % 16)) = true := by
+  have := hex_roundtrip_nat c.toNat c.toNat_lt
+  simpa using this
+
+theorem queryUnescape_cons (c : UInt8) (r : Bytes) : queryUnescape (c :: r) =
+    if c = pct then
+      match r with
+      | h :: l :: r' =>
+        if isHex h ∧ isHex l then (queryUnescape r').map fun t => (unhex h * 16 + unhex l) :: t
+        else none
+      | _ => none
+    else (queryUnescape r).map fun t => (if c = plus then 32 else c) :: t := by
+  rw [queryUnescape.eq_def]; rfl
+
+/-- **queryUnescape_pctEncode** — decoding undoes percent-encoding, for every byte string. -/
+theorem queryUnescape_pctEncode : ∀ v : Bytes, queryUnescape (pctEncode v) = some v
+  | [] => by simp [pctEncode, queryUnescape]
+  | c :: r => by
+    have hx := hex_roundtrip c
+    simp only [pctEncode]
+    rw [queryUnescape_cons]
+    simp only [if_true, hx.1, hx.2.1, and_self, queryUnescape_pctEncode r, Option.map_some,
+      hx.2.2.1]
+
+theorem plain_pctEncode : ∀ v : Bytes, Plain (pctEncode v)
+  | [] => by intro c hc; cases hc
+  | c :: r => by
+    have hx := hex_roundtrip c
+    intro x hxm
+    simp only [pctEncode, List.mem_cons] at hxm
+    rcases hxm with h | h | h | h
+    · subst h; decide
+    · subst h; exact hx.2.2.2.1
+    · subst h; exact hx.2.2.2.2
+    · exact plain_pctEncode r x h
+
+/-- A Cert/URI/By pair carrying the percent-encoding of `v` means `v`, quoted or bare. -/
+theorem encoded_pair_value (k : Key) (hk : k = .cert ∨ k = .uri ∨ k = .by_) (v : Bytes) (b : Bool) :
+    WFPair { key := k, text := pctEncode v, quoted := b } ∧
+    pairValue { key := k, text := pctEncode v, quoted := b } = v := by
+  refine ⟨Or.inr (plain_pctEncode v), ?_⟩
+  rcases hk with h | h | h <;> subst h <;> simp [pairValue, decodeFor, queryUnescape_pctEncode]
+
+/-- Hash/Subject/DNS values are taken as they are. -/
+theorem raw_pair_value (k : Key) (hk : k = .hash ∨ k = .subject ∨ k = .dns) (v : Bytes) (b : Bool) :
+    pairValue { key := k, text := v, quoted := b } = v := by
+  rcases hk with h | h | h <;> subst h <;> rfl
+
+/-! ## The CN of a subject -/
+
+/-- One relative distinguished name `key=val`, `val` in its escaped string form. -/
+structure RDN where
+  key : Bytes
+  val : Bytes
+
+def renderRDN (r : RDN) : Bytes := r.key ++ eqc :: r.val
+def renderDN (rs : List RDN) : Bytes := joinWith comma (rs.map renderRDN)
+
+/-- `t` has no comma outside a backslash escape and does not end in a dangling backslash. -/
+def dnTok : Bytes → Bool
+  | [] => true
+  | c :: r =>
+    if c = comma then false
+    else if c = bs then
+      match r with
+      | [] => false
+      | e :: r' => if e = nl then dnTok (e :: r') else dnTok r'
+    else dnTok r
+
+theorem dnTok_cons (c : UInt8) (r : Bytes) : dnTok (c :: r) =
+    if c = comma then false
+    else if c = bs then
+      match r with
+      | [] => false
+      | e :: r' => if e = nl then dnTok (e :: r') else dnTok r'
+    else dnTok r := by
+  rw [dnTok.eq_def]; rfl
+
+theorem dnParts_cons (cur : Bytes) (c : UInt8) (r : Bytes) : dnParts cur (c :: r) =
+    if c = comma then flush cur ++ dnParts [] r
+    else if c = bs then
+      match r with
+      | [] => [cur ++ [c]]
+      | e :: r' => if e = nl then dnParts (cur ++ [c]) (e :: r') else dnParts (cur ++ [c, e]) r'
+    else dnParts (cur ++ [c]) r := by
+  rw [dnParts.eq_def]; rfl
+
+theorem dnParts_append : ∀ (n : Nat) (t : Bytes), t.length ≤ n → ∀ (cur rest : Bytes),
+    dnTok t = true → dnParts cur (t ++ rest) = dnParts (cur ++ t) rest
+  | _, [], _, cur, rest, _ => by simp
+  | 0, _ :: _, hl, _, _, _ => by simp at hl
+  | n + 1, c :: r, hl, cur, rest, h => by
+    have hl : r.length ≤ n := Nat.le_of_succ_le_succ hl
+    rw [dnTok_cons] at h
+    simp only [List.cons_append]
+    rw [dnParts_cons]
+    by_cases h1 : c = comma
+    · simp [h1] at h
+    · simp only [h1, if_false] at h ⊢
+      by_cases h2 : c = bs
+      · simp only [h2, if_true] at h ⊢
+        cases r with
+        | nil => simp at h
+        | cons e r' =>
+          simp only [List.length_cons] at hl
+          simp only [List.cons_append]
+          by_cases h3 : e = nl
+          · simp only [h3, if_true] at h ⊢
+            have := dnParts_append n (nl :: r') (by simp; omega) (cur ++ [bs]) rest h
+            simp only [List.cons_append] at this
+            rw [this]; simp
+          · simp only [h3, if_false] at h ⊢
+            rw [dnParts_append n r' (by omega) (cur ++ [bs, e]) rest h]; simp
+      · simp only [h2, if_false] at h ⊢
+        rw [dnParts_append n r hl (cur ++ [c]) rest h]; simp
+
+theorem dnParts_join : ∀ (a : Bytes) (r : List Bytes) (cur : Bytes),
+    (∀ t ∈ a :: r, dnTok t = true ∧ t ≠ []) →
+    dnParts cur (joinWith comma (a :: r)) = (cur ++ a) :: r
+  | a, [], cur, h => by
+    have ha := h a (by simp)
+    have := dnParts_append a.length a (Nat.le_refl _) cur [] ha.1
+    simp only [List.append_nil] at this
+    have hne : (cur ++ a).isEmpty = false := by
+      cases a with
+      | nil => exact absurd rfl ha.2
+      | cons x y => simp
+    simp [joinWith, this, dnParts, flush, hne]
+  | a, b :: r, cur, h => by
+    have ha := h a (by simp)
+    simp only [joinWith]
+    rw [dnParts_append a.length a (Nat.le_refl _) cur _ ha.1, dnParts_cons]
+    have hne : (cur ++ a).isEmpty = false := by
+      cases a with
+      | nil => exact absurd rfl ha.2
+      | cons x y => simp
+    simp only [if_true, flush, hne, Bool.false_eq_true, if_false]
+    rw [dnParts_join b r [] (fun t ht => h t (by simp [ht]))]
+    simp
+
+/-- The key spells CN (any case). -/
+def isCN (k : Bytes) : Bool :=
+  match k with
+  | [a, b] => (a == 67 || a == 99) && (b == 78 || b == 110)
+  | _ => false
+
+theorem cnOfPart_rdn (k v : Bytes) (hk : eqc ∉ k) :
+    cnOfPart (k ++ eqc :: v) = if isCN k = true ∧ v ≠ [] then some v else none := by
+  have e1 : eqc ≠ 67 ∧ eqc ≠ 99 ∧ eqc ≠ 78 ∧ eqc ≠ 110 := by decide
+  match k, hk with
+  | [], _ =>
+    rcases v with _ | ⟨x, _ | ⟨y, _ | ⟨z, w⟩⟩⟩ <;> simp [cnOfPart, isCN, e1]
+  | [a], _ =>
+    cases v with
+    | nil => simp [cnOfPart, isCN]
+    | cons x y =>
+      cases y with
+      | nil => simp [cnOfPart, isCN]
+      | cons z w => simp [cnOfPart, isCN, e1]
+  | [a, b], _ =>
+    cases v with
+    | nil => simp [cnOfPart, isCN]
+    | cons x y => simp [cnOfPart, isCN]
+  | a :: b :: c :: k', hk =>
+    have hc : c ≠ eqc := by
+      intro e; apply hk; simp [e]
+    cases k' with
+    | nil => simp [cnOfPart, isCN, hc]
+    | cons x y => simp [cnOfPart, isCN, hc]
+
+/-- A relative distinguished name as it appears in a subject string: key of letters/digits (no
+comma, backslash or '='; starts with a solid byte), value in escaped form (no bare comma, no
+dangling backslash) that is empty or ends with a solid byte. -/
+def WFRDN (r : RDN) : Prop :=
+  FirstSolid r.key ∧ (∀ c ∈ r.key, c ≠ comma ∧ c ≠ bs ∧ c ≠ eqc) ∧ dnTok r.val = true ∧
+    (r.val = [] ∨ LastSolid r.val)
+
+theorem dnTok_inert : ∀ (k rest : Bytes), (∀ c ∈ k, c ≠ comma ∧ c ≠ bs) →
+    dnTok (k ++ rest) = dnTok rest
+  | [], _, _ => rfl
+  | c :: k, rest, h => by
+    have hc := h c (by simp)
+    simp only [List.cons_append]
+    rw [dnTok_cons]
+    simp only [hc.1, hc.2, if_false]
+    exact dnTok_inert k rest (fun x hx => h x (by simp [hx]))
+
+theorem renderRDN_facts (r : RDN) (h : WFRDN r) :
+    dnTok (renderRDN r) = true ∧ renderRDN r ≠ [] ∧ trimSpace (renderRDN r) = renderRDN r := by
+  obtain ⟨hf, hk, hv, hl⟩ := h
+  refine ⟨?_, ?_, ?_⟩
+  · unfold renderRDN
+    rw [dnTok_inert _ _ (fun c hc => ⟨(hk c hc).1, (hk c hc).2.1⟩), dnTok_cons]
+    have : eqc ≠ comma ∧ eqc ≠ bs := by decide
+    simp only [this.1, this.2, if_false, hv]
+  · obtain ⟨c, t, e, _⟩ := hf
+    simp [renderRDN, e]
+  · apply trimSpace_ends (hf.append _)
+    rcases hl with hl | hl
+    · rw [hl]; exact ⟨r.key, eqc, rfl, solid_eqc⟩
+    · have := hl.prepend (r.key ++ [eqc])
+      simpa using this
+
+/-- The value of the first RDN whose key is CN and whose value is not empty ("" if none). -/
+def firstCN : List RDN → Bytes
+  | [] => []
+  | r :: rs => if isCN r.key = true ∧ r.val ≠ [] then r.val else firstCN rs
+
+theorem findSome_rdns : ∀ (rs : List RDN), (∀ r ∈ rs, WFRDN r) →
+    ((rs.map renderRDN).findSome? fun p => cnOfPart (trimSpace p)).getD [] = firstCN rs
+  | [], _ => rfl
+  | r :: rs, h => by
+    have hr := h r (by simp)
+    have hk : eqc ∉ r.key := fun hm => (hr.2.1 eqc hm).2.2 rfl
+    simp only [List.map_cons, List.findSome?_cons, (renderRDN_facts r hr).2.2, firstCN]
+    unfold renderRDN
+    rw [cnOfPart_rdn r.key r.val hk]
+    by_cases hc : isCN r.key = true ∧ r.val ≠ []
+    · simp [hc]
+    · simp only [hc, if_false]
+      exact findSome_rdns rs (fun x hx => h x (by simp [hx]))
+
+/-- **cn_of_subject** — for every subject string rendered from well-formed RDNs (escaped commas
+inside values do not split), `extractCN` returns the value of the first CN RDN. -/
+theorem cn_of_subject (rs : List RDN) (h : ∀ r ∈ rs, WFRDN r) :
+    extractCN (renderDN rs) = firstCN rs := by
+  unfold extractCN renderDN
+  cases rs with
+  | nil => rfl
+  | cons r rs =>
+    have hs : ∀ t ∈ renderRDN r :: rs.map renderRDN, dnTok t = true ∧ t ≠ [] := by
+      intro t ht
+      rw [← List.map_cons] at ht
+      obtain ⟨x, hx, rfl⟩ := List.mem_map.mp ht
+      exact ⟨(renderRDN_facts x (h x hx)).1, (renderRDN_facts x (h x hx)).2.1⟩
+    rw [List.map_cons, dnParts_join _ _ [] hs]
+    simp only [List.nil_append]
+    rw [← List.map_cons]
+    exact findSome_rdns (r :: rs) h
+
+/-! ## Default identity of `MtlsAuthenticateXfcc` -/
+
+theorem renderHeader_first : ∀ (ps : List RPair) (es : List (List RPair)), WFHeader (ps :: es) →
+    FirstSolid (renderHeader (ps :: es))
+  | ps, es, h => by
+    have hp := h ps (by simp)
+    obtain ⟨p, rest, rfl⟩ : ∃ p rest, ps = p :: rest := by
+      cases ps with
+      | nil => exact absurd rfl hp.1
+      | cons p rest => exact ⟨p, rest, rfl⟩
+    have f := (renderElem_ends p rest hp.2).1
+    cases es with
+    | nil => simpa [renderHeader, joinWith] using f
+    | cons q qs => simpa [renderHeader, joinWith] using f.append _
+
+/-- **xfcc_identity** — for a well-formed header with at least one element (first
+X-Forwarded-Client-Cert value), the default authenticator accepts and the principal is the CN
+extracted from the subject of the SELECTED element: the first one, or the last one when
+`SelectElement = "last"`. -/
+theorem xfcc_identity (last : Bool) (ps : List RPair) (es : List (List RPair))
+    (h : WFHeader (ps :: es)) (more : List Bytes) :
+    xfccAuth last (renderHeader (ps :: es) :: more) =
+      let e := assemble (if last then (ps :: es).getLast (by simp) else ps)
+      .ok (extractCN e.subject) e := by
+  have hne : (renderHeader (ps :: es)).isEmpty = false := by
+    obtain ⟨c, r, e, _⟩ := renderHeader_first ps es h
+    rw [e]; rfl
+  unfold xfccAuth
+  simp only [List.headD_cons, hne, Bool.false_eq_true, if_false, xfcc_roundtrip _ h]
+  cases last with
+  | false => simp
+  | true =>
+    simp only [if_true]
+    rw [List.getLast?_map, List.getLast?_eq_some_getLast (by simp)]
+    simp
+
+/-- … and when that subject is a rendered DN, the principal is its first CN. -/
+theorem xfcc_identity_cn (last : Bool) (ps : List RPair) (es : List (List RPair))
+    (h : WFHeader (ps :: es)) (more : List Bytes) (rs : List RDN) (hr : ∀ r ∈ rs, WFRDN r)
+    (hsub : (assemble (if last then (ps :: es).getLast (by simp) else ps)).subject = renderDN rs) :
+    ∃ e, xfccAuth last (renderHeader (ps :: es) :: more) = .ok (firstCN rs) e := by
+  refine ⟨assemble (if last then (ps :: es).getLast (by simp) else ps), ?_⟩
+  rw [xfcc_identity last ps es h more]
+  simp only [hsub, cn_of_subject rs hr]
+
+/-! ## Non-vacuity (evaluating the executable definitions) -/
+
+/-- tokens "s3cret" ↦ 0, "s3cre" ↦ 1 (a proper prefix), "" ↦ 2 -/
+def exTokens : List (Bytes × Nat) := [([115, 51, 99, 114, 101, 116], 0), ([115, 51, 99, 114, 101], 1), ([], 2)]
+
+example : (exTokens.map Prod.fst).Nodup := by decide
+example : authStatic exTokens [[66, 101, 97, 114, 101, 114, 32, 115, 51, 99, 114, 101, 116]] = .ok 0 ∧ authStatic exTokens [[66, 101, 97, 114, 101, 114, 32, 115, 51, 99, 114, 101]] = .ok 1 ∧
+    authStatic exTokens [[66, 101, 97, 114, 101, 114, 32]] = .ok 2 ∧
+    authStatic exTokens [[98, 101, 97, 114, 101, 114, 32, 115, 51, 99, 114, 101, 116]] = .notBearer ∧ authStatic exTokens [[66, 101, 97, 114, 101, 114, 32, 32, 115, 51, 99, 114, 101, 116]] = .unknown ∧
+    authStatic exTokens [[66, 101, 97, 114, 101, 114, 32, 115, 51, 99, 114, 101, 116, 32]] = .unknown ∧ authStatic exTokens [] = .missing ∧
+    authStatic exTokens [[66, 97, 115, 105, 99, 32, 120], [66, 101, 97, 114, 101, 114, 32, 115, 51, 99, 114, 101, 116]] = .notBearer := by decide
+
+/-- `Hash=ab;Subject="CN=Doe\\, John,O=a;b";URI=%41,By="x"` rendered from the grammar. -/
+def exHeader : List (List RPair) :=
+  [[{ key := .hash, text := [97, 98], quoted := false },
+    { key := .subject, text := [67, 78, 61, 68, 111, 101, 92, 44, 32, 74, 111, 104, 110, 44, 79, 61, 97, 59, 98], quoted := true },
+    { key := .uri, text := [37, 52, 49], quoted := false }],
+   [{ key := .by_, text := [120], quoted := true }]]
+
+example : WFHeader exHeader := by
+  intro ps hps
+  simp only [exHeader, List.mem_cons, List.not_mem_nil, or_false] at hps
+  rcases hps with rfl | rfl
+  · refine ⟨by simp, ?_⟩
+    intro p hp
+    simp only [List.mem_cons, List.not_mem_nil, or_false] at hp
+    rcases hp with rfl | rfl | rfl
+    · right; unfold Plain; decide
+    · left; rfl
+    · right; unfold Plain; decide
+  · refine ⟨by simp, ?_⟩
+    intro p hp
+    simp only [List.mem_cons, List.not_mem_nil, or_false] at hp
+    subst hp; left; rfl
+
+example : renderHeader exHeader = [72, 97, 115, 104, 61, 97, 98, 59, 83, 117, 98, 106, 101, 99, 116, 61, 34, 67, 78, 61, 68, 111, 101, 92, 92, 44, 32, 74, 111, 104, 110, 44, 79, 61, 97, 59, 98, 34, 59, 85, 82, 73, 61, 37, 52, 49, 44, 66, 121, 61, 34, 120, 34] := by decide
+example : parseXfcc [72, 97, 115, 104, 61, 97, 98, 59, 83, 117, 98, 106, 101, 99, 116, 61, 34, 67, 78, 61, 68, 111, 101, 92, 92, 44, 32, 74, 111, 104, 110, 44, 79, 61, 97, 59, 98, 34, 59, 85, 82, 73, 61, 37, 52, 49, 44, 66, 121, 61, 34, 120, 34] =
+    [{ hash := [97, 98], subject := [67, 78, 61, 68, 111, 101, 92, 44, 32, 74, 111, 104, 110, 44, 79, 61, 97, 59, 98], uri := [65] }, { by_ := [120] }] := by decide
+example : extractCN [67, 78, 61, 68, 111, 101, 92, 44, 32, 74, 111, 104, 110, 44, 79, 61, 97, 59, 98] = [68, 111, 101, 92, 44, 32, 74, 111, 104, 110] := by decide
+example : xfccAuth false [[72, 97, 115, 104, 61, 97, 98, 59, 83, 117, 98, 106, 101, 99, 116, 61, 34, 67, 78, 61, 68, 111, 101, 92, 92, 44, 32, 74, 111, 104, 110, 44, 79, 61, 97, 59, 98, 34, 59, 85, 82, 73, 61, 37, 52, 49, 44, 66, 121, 61, 34, 120, 34]] =
+    .ok [68, 111, 101, 92, 44, 32, 74, 111, 104, 110] { hash := [97, 98], subject := [67, 78, 61, 68, 111, 101, 92, 44, 32, 74, 111, 104, 110, 44, 79, 61, 97, 59, 98], uri := [65] } := by decide
+/-- noise: an unbalanced quote swallows the rest; `%zz` is left as is; NBSP is trimmed. -/
+example : (parseXfcc [72, 97, 115, 104, 61, 34, 97, 44, 72, 97, 115, 104, 61, 98, 59, 83, 117, 98, 106, 101, 99, 116, 61, 99]).length = 1 ∧
+    (parseXfcc [85, 82, 73, 61, 37, 122, 122]) = [{ uri := [37, 122, 122] }] ∧ trimSpace [194, 160, 97, 226, 128, 131, 32] = [97] := by decide
 
 end Vgi.Props.C24
